@@ -265,7 +265,7 @@ PARTS = {
         derive=handler_mutants,
         drive={"quick": 0, "thorough": 0},
         trace="Trace_Handler.tla", mon_cfg="Trace_Handler_mon.cfg", strict_cfg=None,
-        formulas={"C02.Delivered": "C02", "C02.MutantAccepted": "C02"},
+        formulas={"C02.Delivered": "C02", "C02.MutantAccepted": "C02", "C02.WrongSource": "C02"},
         interesting=lambda e: e["in"]["k"] in ("Mutate", "Replay"),
         required=lambda events: [] if any(e["in"]["k"] == "Mutate" and e["in"].get("changed") for e in events) else ["Mutate"],
         assumptions=["AEAD integrity is assumed, not proved: what is decided is that the code authenticates the received IV || header || auth-data, looks the session up by (claimed id, source address) and never delivers on a failure path",
@@ -276,7 +276,7 @@ PARTS = {
         mc={"quick": ["MC_Handler_init.cfg"], "thorough": ["MC_Handler_init.cfg", "MC_Handler_tiny.cfg", "MC_Handler_atkq.cfg"]},
         goals_cfg="MC_Handler_goal.cfg",
         goals=["GoalSecondWay", "GoalNoRecordHs", "GoalRekeyPending", ("GoalRekeyReleasesPending", "MC_Handler_goalenr.cfg"), "GoalEnrlessDone", "GoalTimeoutAll", "GoalPendingAfterExpiredChallenge", "GoalBadSigKeepsChallenge", "GoalBadThenGoodHs", "GoalWayAfterReplay", ("GoalSendAfterRotateBack", "MC_Handler_goalrot.cfg"),
-               ("GoalForgedHs", "MC_Handler_goalatk.cfg"), ("GoalReplayedHs", "MC_Handler_goalatk.cfg"), ("GoalJunkSigHs", "MC_Handler_goalatk.cfg"), ("GoalForgedHs", "MC_Handler_goaled.cfg"), ("GoalJunkSigHs", "MC_Handler_goaled.cfg"), ("GoalReplayUnverifiableHs", "MC_Handler_goalsib.cfg"), ("GoalForeignWayOnHs", "MC_Handler_goalsib.cfg"), ("GoalZeroKeyAfterRekey", "MC_Handler_goalzero.cfg"), ("GoalForeignEnrAnswer", "MC_Handler_goalnoenr.cfg"), ("GoalLateEnrAnswer", "MC_Handler_goalnoenr.cfg")],
+               ("GoalForgedHs", "MC_Handler_goalatk.cfg"), ("GoalReplayedHs", "MC_Handler_goalatk.cfg"), ("GoalJunkSigHs", "MC_Handler_goalatk.cfg"), ("GoalForgedHs", "MC_Handler_goaled.cfg"), ("GoalJunkSigHs", "MC_Handler_goaled.cfg"), ("GoalReplayUnverifiableHs", "MC_Handler_goalsib.cfg"), ("GoalForeignWayOnHs", "MC_Handler_goalsib.cfg"), ("GoalReplayMsgFromSibling", "MC_Handler_goalsib.cfg"), "GoalWayTwiceWithSession", ("GoalZeroKeyAfterRekey", "MC_Handler_goalzero.cfg"), ("GoalForeignEnrAnswer", "MC_Handler_goalnoenr.cfg"), ("GoalLateEnrAnswer", "MC_Handler_goalnoenr.cfg")],
         sim={"quick": [dict(cfg="MC_Handler_sim.cfg", num=160, depth=40)], "thorough": [dict(cfg="MC_Handler_sim.cfg", num=1000, depth=60)]},
         fixed_behaviours=[
             # more outcomes at once than the event channel to the application holds (50): 56 requests to a silent peer, nobody reads events
@@ -286,7 +286,7 @@ PARTS = {
         append_ops=[{"k": "Quiesce"}],
         drive={"quick": 0, "thorough": 0},
         trace="Trace_Handler.tla", mon_cfg="Trace_Handler_mon.cfg", strict_cfg="Trace_Handler_strict.cfg",
-        formulas={"C01.Attribution": "C01", "C01.KeyDisclosed": "C01", "C02.Delivered": "C02", "C02.MutantAccepted": "C02",
+        formulas={"C01.Attribution": "C01", "C01.KeyDisclosed": "C01", "C02.Delivered": "C02", "C02.MutantAccepted": "C02", "C02.WrongSource": "C02",
                   "C03.ReplayAccepted": "C03", "C03.NoChallenge": "C03", "C03.WrongSource": "C03", "C03.TwoHandshakes": "C03", "C03.ActedOnForeign": "C03",
                   "C04.TwoOutcomes": "C04", "C04.EventAfterOutcome": "C04", "C04.NoOutcome": "C04", "C04.TimeoutUnjustified": "C04", "C04.WireBound": "C04",
                   "C13.Count": "C13", "C13.LeftOver": "C13", "C13.ReleasedEarly": "C13", "C12.SingleStack": "C12", "C15.Capacity": "C15", "C15.StaleSessionUsed": "C15",
